@@ -76,38 +76,51 @@ def _fmt(e):
     return "%s(e%d h%d n%d %s%s)" % (e["ev"], e["e"], e["h"], e["n"], e["x"], (" " + e["y"]) if e["y"] else "")
 
 
-def _tlc_traces(ctx, traces, nshards):
-    """Run monitor + conformance over all traces (sharded). Returns (mon: id->rec, accepted ids, states, transitions)."""
-    ids = list(traces.keys())
+def _shard(ctx, traces, ids, nshards, tag):
     nshards = max(1, min(nshards, len(ids)))
-    shards = [ids[i::nshards] for i in range(nshards)]
     paths = []
-    for i, sh in enumerate(shards):
-        p = os.path.join(ctx.tmp, "c13_shard_%d.ndjson" % i)
-        vf.write_ndjson(p, [rec for t in sh for rec in traces[t]])
+    for i in range(nshards):
+        p = os.path.join(ctx.tmp, "c13_%s_%d.ndjson" % (tag, i))
+        vf.write_ndjson(p, [rec for t in ids[i::nshards] for rec in traces[t]])
         paths.append(p)
+    return paths
 
-    def job(a):
-        kind, i = a
-        if kind == "mon":
-            return kind, i, vf.run_tlc(ctx, "Trace_ExecutorMon", "Trace_ExecutorMon.cfg", workers=1, heap="2g", timeout=900,
-                                       env={"VF_TRACE": paths[i]}, deadlock=False, name="c13mon_%d" % i, quiet=True)
-        return kind, i, vf.run_tlc(ctx, "Trace_Executor", "Trace_Executor.cfg", workers=1, heap="2g", timeout=900,
-                                   env={"VF_TRACE": paths[i]}, deadlock=False, name="c13conf_%d" % i, quiet=True)
+
+def _tlc_traces(ctx, traces, nshards):
+    """TLC over the real traces.  Pass 1 (Trace_Executor): conformance with Executor.tla; the property monitor
+    runs along as the model's ghost variable, so an accepted trace comes back with the keys the monitor raised on
+    exactly the recorded events.  Pass 2 (Trace_ExecutorMon): the monitor alone over the traces pass 1 rejected.
+    Returns (mon: id -> {viol, ...}, accepted ids, states, transitions)."""
+    ids = list(traces.keys())
+
+    def conf(p):
+        return vf.run_tlc(ctx, "Trace_Executor", "Trace_Executor.cfg", workers=1, heap="2g", timeout=900,
+                          env={"VF_TRACE": p}, deadlock=False, name="c13conf_" + os.path.basename(p), quiet=True)
+
+    def monr(p):
+        return vf.run_tlc(ctx, "Trace_ExecutorMon", "Trace_ExecutorMon.cfg", workers=1, heap="2g", timeout=900,
+                          env={"VF_TRACE": p}, deadlock=False, name="c13mon_" + os.path.basename(p), quiet=True)
 
     mon, acc, st, trn = {}, set(), 0, 0
-    with cf.ThreadPoolExecutor(min(vf.NCPU, 2 * nshards)) as ex:
-        for kind, i, r in ex.map(job, [(k, i) for i in range(nshards) for k in ("mon", "conf")]):
+    with cf.ThreadPoolExecutor(nshards) as ex:
+        for r in ex.map(conf, _shard(ctx, traces, ids, nshards, "conf")):
             if not r.ok:
-                raise vf.Inconclusive("TLC %s run on real traces failed: %s\n%s" % (kind, r.error or r.violated, r.out[-2000:]))
-            if kind == "mon":
+                raise vf.Inconclusive("TLC conformance run on real traces failed: %s\n%s" % (r.error or r.violated, r.out[-2000:]))
+            for a in vf.tlc_printed(r.out, "ACCEPT"):
+                acc.add(a["id"])
+                mon[a["id"]] = dict(id=a["id"], viol=a["viol"], first=0, execs=a["execs"], sent=a["sent"])
+            st += r.distinct
+            trn += r.generated
+        rejected = [t for t in ids if t not in acc]
+        if rejected:
+            for r in ex.map(monr, _shard(ctx, traces, rejected, nshards, "mon")):
+                if not r.ok:
+                    raise vf.Inconclusive("TLC monitor run on real traces failed: %s\n%s" % (r.error or r.violated, r.out[-2000:]))
                 for m in vf.tlc_printed(r.out, "MON"):
                     mon[m["id"]] = m
-            else:
-                for a in vf.tlc_printed(r.out, "ACCEPT"):
-                    acc.add(a["id"])
                 st += r.distinct
                 trn += r.generated
+    ctx.log("TLC on %d real traces: %d conform to Executor.tla, %d do not (monitored separately)" % (len(ids), len(acc), len(rejected)))
     return mon, acc, st, trn
 
 
